@@ -30,6 +30,7 @@ use identity_jose::jws::{
 use identity_storage::{JwkDocumentExt, JwkMemStore, JwkStorage, JwsSignatureOptions, KeyId, KeyIdMemstore, KeyIdStorage, MethodDigest, Storage};
 use identity_verification::{MethodRelationship, MethodScope, VerificationMethod};
 use serde_json::{json, Value};
+use crypto::signatures::ed25519 as ed;
 use vh::b64::{url_decode, url_encode};
 use vh::keys::{Alg, Key};
 use vh::panicmon::catch;
@@ -149,11 +150,21 @@ fn gen_headers(rng: &mut Rng, json_ser: bool, b64: Option<bool>) -> Hdr {
 
 struct Cx {
   rep: Report,
+  /// Non-empty while cases run on a document of a special family (Part D): appended to every signature, and the family's
+  /// variant is added to the case.
+  tag: &'static str,
+  variant: &'static str,
 }
 
 impl Cx {
   fn viol(&mut self, sig: &str, desc: String, case: &Value) {
-    self.rep.violation(sig, &desc, case.clone());
+    if self.tag.is_empty() {
+      self.rep.violation(sig, &desc, case.clone());
+    } else {
+      let mut case = case.clone();
+      case["document_family"] = json!(format!("{}:{}", self.tag, self.variant));
+      self.rep.violation(&format!("{}:{}", sig, self.tag), &desc, case);
+    }
   }
 
   /// Checks one decoded signature item against what was given to the encoder.
@@ -408,6 +419,34 @@ struct MethodSpec {
   fragment: String,
   id: DIDUrl,
   scopes: Vec<MethodScope>, // every scope the method resolves in
+  /// Raw Ed25519 public key of the method as it stands in the document's JSON form (own dissection of publicKeyJwk.x).
+  pubkey: Option<[u8; 32]>,
+}
+
+/// Ed25519 public key bytes from the JSON form of a verification method (`publicKeyJwk.x`, own base64url).
+fn pubkey_of_json(method: &Value) -> Option<[u8; 32]> {
+  let x = method.get("publicKeyJwk")?.get("x")?.as_str()?;
+  url_decode(x)?.try_into().ok()
+}
+
+/// Direct Ed25519 verification (crypto crate), independent of the library's verifiers and of its method resolution.
+fn ref_ed_verify(pk: &[u8; 32], msg: &[u8], sig: &[u8]) -> bool {
+  let Ok(sigb): Result<[u8; 64], _> = sig.try_into() else { return false };
+  match ed::PublicKey::try_from(*pk) {
+    Ok(p) => p.verify(&ed::Signature::from_bytes(sigb), msg),
+    Err(_) => false,
+  }
+}
+
+fn member_of(scope: MethodScope) -> &'static str {
+  match scope {
+    MethodScope::VerificationMethod => "verificationMethod",
+    MethodScope::VerificationRelationship(MethodRelationship::Authentication) => "authentication",
+    MethodScope::VerificationRelationship(MethodRelationship::AssertionMethod) => "assertionMethod",
+    MethodScope::VerificationRelationship(MethodRelationship::KeyAgreement) => "keyAgreement",
+    MethodScope::VerificationRelationship(MethodRelationship::CapabilityDelegation) => "capabilityDelegation",
+    MethodScope::VerificationRelationship(MethodRelationship::CapabilityInvocation) => "capabilityInvocation",
+  }
 }
 
 const RELS: [MethodRelationship; 5] = [
@@ -535,7 +574,8 @@ fn build_doc(rng: &mut Rng, iota: bool) -> (Doc, Store, Vec<MethodSpec>, Vec<DID
         }
       }
     }
-    specs.push(MethodSpec { fragment: frag, id, scopes });
+    let pubkey = serde_json::to_value(doc.core().resolve_method(&id, None).expect("generated method resolves")).ok().and_then(|v| pubkey_of_json(&v));
+    specs.push(MethodSpec { fragment: frag, id, scopes, pubkey });
   }
   // methods of other DIDs that share a fragment with one of the document's own methods (listed after them, so that
   // fragment-only signing still picks the own method): naming one as method id must never select its namesake
@@ -653,6 +693,131 @@ fn build_doc(rng: &mut Rng, iota: bool) -> (Doc, Store, Vec<MethodSpec>, Vec<DID
     }
   }
   (doc, storage, specs, twins, danglings)
+}
+
+// ---------------------------------------------------------------------------------------------
+// Part D: documents holding near-namesake methods
+// ---------------------------------------------------------------------------------------------
+const NAMESAKE_VARIANTS: [&str; 6] = ["letter-case-pct", "letter-case", "hex-case", "pct-vs-literal", "affix", "letter-and-hex-case"];
+
+/// Distinct fragments (as strings) that differ only in the way `variant` says; all are legal DID URL fragments.
+fn namesake_fragments(rng: &mut Rng, variant: &str) -> Vec<String> {
+  let (stem, flipped) = *rng.pick(&[("key", "Key"), ("Sig", "sig"), ("auth-Key", "auth-key"), ("k", "K"), ("signing", "SIGNING")]);
+  let (lit, up, low) = *rng.pick(&[("-", "%2D", "%2d"), ("~", "%7E", "%7e"), (":", "%3A", "%3a"), (".", "%2E", "%2e"), ("_", "%5F", "%5f"), ("/", "%2F", "%2f")]);
+  let tail = rng.below(10).to_string();
+  let f = |a: &str, b: &str| format!("{}{}{}", a, b, tail);
+  let mut v = match variant {
+    "letter-case-pct" => {
+      let pct = if rng.bool() { up } else { low };
+      vec![f(stem, pct), f(flipped, pct)]
+    }
+    "letter-case" => vec![f(stem, lit), f(flipped, lit)],
+    "hex-case" => vec![f(stem, up), f(stem, low)],
+    "pct-vs-literal" => {
+      let mut v = vec![f(stem, if rng.bool() { up } else { low }), f(stem, lit)];
+      if rng.chance(1, 3) {
+        v.push(f(stem, "%25")); // a literal percent sign, encoded
+      }
+      v
+    }
+    "affix" => {
+      let base = f(stem, if rng.bool() { up } else { lit });
+      let mut v = vec![base.clone()];
+      let mut more = vec![format!("{}x", base), format!("x{}", base), base[..base.len() - 1].to_string(), base[1..].to_string(), format!("{}%2D", base), format!("%2D{}", base)];
+      more.retain(|m| !m.is_empty() && !m.ends_with('%') && m != &base);
+      rng.shuffle(&mut more);
+      v.extend(more.into_iter().take(1 + rng.usize(2)));
+      v
+    }
+    _ => vec![f(stem, up), f(flipped, low)],
+  };
+  v.dedup();
+  rng.shuffle(&mut v);
+  v
+}
+
+/// A document obtained from its JSON form (as after resolution) that holds 2-3 near-namesake methods plus an unrelated
+/// one, each generated through the same storage in a scratch document of the same DID and then placed - embedded in a
+/// relationship or in verificationMethod, optionally referenced from relationships - into one JSON document. `None` when
+/// the document kind does not accept the assembled JSON (counted by the caller).
+fn build_namesake_doc(rng: &mut Rng, iota: bool, variant: &'static str) -> Option<(Doc, Store, Vec<MethodSpec>)> {
+  let storage: Store = Storage::new(JwkMemStore::new(), KeyIdMemstore::new());
+  let core_did: CoreDID = CoreDID::parse(format!("did:example:c08n{}", rng.below(1000))).unwrap();
+  let fresh = |_: ()| -> Doc {
+    if iota {
+      Doc::Iota(IotaDocument::new(&NetworkName::try_from("smr").unwrap()))
+    } else {
+      Doc::Core(CoreDocument::builder(Object::new()).id(core_did.clone()).build().unwrap())
+    }
+  };
+  let to_json = |d: &Doc| -> Value {
+    match d {
+      Doc::Core(d) => serde_json::to_value(d).expect("harness: document to JSON"),
+      Doc::Iota(d) => serde_json::to_value(d).expect("harness: document to JSON"),
+    }
+  };
+  let target = fresh(());
+  let did = target.core().id().to_string();
+  let mut v = to_json(&target);
+  let mut frags = namesake_fragments(rng, variant);
+  let unrelated = format!("other-{}", rng.below(10));
+  let at = rng.usize(frags.len() + 1);
+  frags.insert(at, unrelated);
+  // scopes: usually pairwise different, sometimes shared
+  let mut pool = all_scopes();
+  rng.shuffle(&mut pool);
+  let share = rng.chance(1, 4);
+  let mut specs: Vec<MethodSpec> = Vec::new();
+  for (i, f) in frags.iter().enumerate() {
+    let scope = if share { pool[0] } else { pool[i % pool.len()] };
+    let mut scratch = fresh(());
+    match &mut scratch {
+      Doc::Core(d) => block_on(d.generate_method(&storage, JwkMemStore::ED25519_KEY_TYPE, JwsAlgorithm::EdDSA, Some(f.as_str()), scope)),
+      Doc::Iota(d) => block_on(d.generate_method(&storage, JwkMemStore::ED25519_KEY_TYPE, JwsAlgorithm::EdDSA, Some(f.as_str()), scope)),
+    }
+    .expect("generate_method on a fresh document");
+    let sv = to_json(&scratch);
+    let member = member_of(scope);
+    let entry = {
+      let inner = if iota { &sv["doc"] } else { &sv };
+      inner[member].as_array().and_then(|a| a.first()).cloned().expect("generated method in its scope's member")
+    };
+    let id_text = format!("{}#{}", did, f);
+    assert_eq!(entry.get("id").and_then(|x| x.as_str()), Some(id_text.as_str()), "harness: generated method id");
+    let pubkey = pubkey_of_json(&entry);
+    let mut scopes = vec![scope];
+    let inner = if iota { &mut v["doc"] } else { &mut v };
+    let obj = inner.as_object_mut().expect("document object");
+    {
+      let arr = obj.entry(member.to_string()).or_insert_with(|| json!([]));
+      let arr = arr.as_array_mut().expect("method array");
+      if rng.bool() {
+        arr.insert(0, entry);
+      } else {
+        arr.push(entry);
+      }
+    }
+    if scope == MethodScope::VerificationMethod {
+      for r in RELS {
+        if rng.chance(1, 3) {
+          let arr = obj.entry(member_of(MethodScope::VerificationRelationship(r)).to_string()).or_insert_with(|| json!([]));
+          let arr = arr.as_array_mut().expect("relationship array");
+          if rng.bool() {
+            arr.insert(0, json!(id_text));
+          } else {
+            arr.push(json!(id_text));
+          }
+          scopes.push(MethodScope::VerificationRelationship(r));
+        }
+      }
+    }
+    let id = DIDUrl::parse(&id_text).expect("harness: method id");
+    // addressed by the bare fragment or in relative form
+    let fragment = if rng.bool() { f.clone() } else { format!("#{}", f) };
+    specs.push(MethodSpec { fragment, id, scopes, pubkey });
+  }
+  let doc = if iota { serde_json::from_value::<IotaDocument>(v).ok().map(Doc::Iota) } else { serde_json::from_value::<CoreDocument>(v).ok().map(Doc::Core) }?;
+  Some((doc, storage, specs))
 }
 
 fn gen_options(rng: &mut Rng, m: &MethodSpec) -> (JwsSignatureOptions, Value) {
@@ -792,6 +957,29 @@ impl Cx {
       for (k, v) in c.iter() {
         if hdr.get(k) != Some(v) {
           self.viol("create_jws-custom-parameter", format!("custom parameter {} missing or altered", k), &case);
+        }
+      }
+    }
+
+    // the signature itself (own dissection, own signing-input formula, direct Ed25519): made with the key the document
+    // holds for the method the token was requested for, and with no other method's key
+    if let Some(pk) = &m.pubkey {
+      let sig = token.as_str().rsplit('.').next().and_then(url_decode).unwrap_or_default();
+      let si = jwsb::signing_input(pseg, &transmitted);
+      self.rep.inc("oracle_ref_signature_checks");
+      if !ref_ed_verify(pk, &si, &sig) {
+        let whose: Vec<String> = specs.iter().filter(|s| s.id != m.id && s.pubkey.as_ref().map(|k| ref_ed_verify(k, &si, &sig)).unwrap_or(false)).map(|s| s.id.to_string()).collect();
+        self.viol(
+          "create_jws-signature-not-by-requested-method-key",
+          format!("the signature of the token requested for {} (addressed as {:?}) does not verify (direct Ed25519 over the signing input) with that method's key; it verifies with the key(s) of {:?}", m.id, addr, whose),
+          &case,
+        );
+      }
+      for other in specs.iter().filter(|s| s.id != m.id) {
+        if let Some(ok) = &other.pubkey {
+          if ok != pk && ref_ed_verify(ok, &si, &sig) {
+            self.viol("create_jws-signature-by-other-method-key", format!("the signature of the token requested for {} verifies (direct Ed25519) with the key of {}", m.id, other.id), &case);
+          }
         }
       }
     }
@@ -1298,7 +1486,7 @@ impl Cx {
 fn main() {
   let args = Args::parse();
   let scale = args.extra_u64("scale", 1000);
-  let mut cx = Cx { rep: Report::new("C08") };
+  let mut cx = Cx { rep: Report::new("C08"), tag: "", variant: "" };
   cx.rep.rule(
     "Part A: (payload class x serialization x b64 absent/true/false x detached x charset option x 1-4 recipients x generated legal header \
      sets) through the three encoders; Part B: (document kind x method in 1-4 scopes x every JwsSignatureOptions field x payload class) through \
@@ -1307,7 +1495,11 @@ fn main() {
      in relationships without the own method - named as method id under every scope and none). Part C: (serialization x kid absent / unrelated / \
      another method's / own id x b64 x detached x nonce) encoder tokens signed through the storage key of a document method, verified with \
      verify_jws (JSON forms: decoder + the document's key) positively under the named method and negatively as in Part B. Non-trivial = a token \
-     was produced; distinct by the class tuple of those dimensions.",
+     was produced; distinct by the class tuple of those dimensions. Part D: documents read from JSON that hold 2-3 near-namesake methods \
+     (fragments differing only in letter case - with and without a %XX octet -, in the hex-digit case of a %XX octet, in percent-encoding vs \
+     the literal character, by a leading/trailing character) plus an unrelated one, in different or shared scopes, keys in one storage, go \
+     through the Part B and Part C cases (signatures carry the suffix :near-namesake). Every create_jws token is also dissected and its \
+     signature checked by direct Ed25519 against the requested method's key (must verify) and every other method's key (must not).",
   );
   let mut rng = args.rng(8);
   let n_a = (if args.thorough { 2_400_000u64 } else { 8_000 } * scale / 1000 / args.nshards).max(60);
@@ -1330,6 +1522,35 @@ fn main() {
     for _ in 0..per_doc_bridge {
       cx.bridge_case(&mut rng, &doc, &storage, &specs, &twins, &dang, iota);
     }
+  }
+  // Part D
+  let n_nn = (if args.thorough { 6_000u64 } else { 48 } * scale / 1000 / args.nshards).max(6);
+  let per_nn = if args.thorough { 16 } else { 10 };
+  let per_nn_bridge = if args.thorough { 8 } else { 4 };
+  let k0 = rng.below(NAMESAKE_VARIANTS.len() as u64);
+  for d in 0..n_nn {
+    let iota = d % 3 == 1;
+    let variant = NAMESAKE_VARIANTS[((k0 + d) % NAMESAKE_VARIANTS.len() as u64) as usize];
+    let Some((doc, storage, specs)) = build_namesake_doc(&mut rng, iota, variant) else {
+      cx.rep.inc("near_namesake_documents_refused");
+      continue;
+    };
+    cx.rep.inc("near_namesake_documents");
+    cx.rep.inc(&format!("near_namesake_documents:{}", variant));
+    cx.tag = "near-namesake";
+    cx.variant = variant;
+    let (before, before_v) = (cx.rep.get("produced:create_jws"), cx.rep.get("verified"));
+    for _ in 0..per_nn {
+      cx.storage_case(&mut rng, &doc, &storage, &specs, &[], &[], iota);
+    }
+    for _ in 0..per_nn_bridge {
+      cx.bridge_case(&mut rng, &doc, &storage, &specs, &[], &[], iota);
+    }
+    let (made, verified) = (cx.rep.get("produced:create_jws") - before, cx.rep.get("verified") - before_v);
+    cx.rep.count("near_namesake_tokens", made);
+    cx.rep.count("near_namesake_verified", verified);
+    cx.tag = "";
+    cx.variant = "";
   }
   cx.rep.finish();
 }
